@@ -541,6 +541,14 @@ func (m *Manager) DeallocateNAT(privateIP net.IP) error {
 
 	privKey := ipToKey(ip4)
 
+	// The whole release runs under the pool lock, like the allocation: removing the
+	// allocation, giving its port block back and writing the release record must be one
+	// step with respect to AllocateNAT. Otherwise the block can be handed to the next
+	// subscriber (and that assignment logged) before this release is logged, and the log
+	// shows two subscribers on the same ports - or a release after a re-assignment.
+	m.poolMu.Lock()
+	defer m.poolMu.Unlock()
+
 	m.allocationMu.Lock()
 	allocation, ok := m.allocations[privKey]
 	if !ok {
@@ -549,7 +557,6 @@ func (m *Manager) DeallocateNAT(privateIP net.IP) error {
 	}
 	delete(m.allocations, privKey)
 	m.allocationMu.Unlock()
-	verifGate(m, "dealloc.afterDelete")
 
 	// Remove from eBPF map
 	if m.subscriberNAT != nil {
@@ -558,8 +565,7 @@ func (m *Manager) DeallocateNAT(privateIP net.IP) error {
 		}
 	}
 
-	// Update pool count
-	m.poolMu.Lock()
+	// Update pool count and give the port block back
 	if allocation.PoolIndex < len(m.pool) {
 		entry := &m.pool[allocation.PoolIndex]
 		entry.Subscribers--
@@ -568,8 +574,6 @@ func (m *Manager) DeallocateNAT(privateIP net.IP) error {
 			entry.usedBlocks[blockIndex] = false
 		}
 	}
-	m.poolMu.Unlock()
-	verifGate(m, "dealloc.afterCount")
 
 	// Log deallocation event
 	if m.natLogger != nil {
